@@ -61,6 +61,19 @@ def make_case(rng, ops=ALLOPS, depth=None, storages=("local", "array")):
         outer = rng.choice([o for o in (">>", "//", "%") if o in ops])
         expr = [outer, inner, ["c", rng.choice([1, 4, 31, 33, 63]) if outer == ">>" else rng.choice([3, 7, 1000, 2 ** 31 - 1])]]
     case = {"decls": decls, "values": values, "reginit": reginit, "regs": regs, "expr": expr, "dest": "d"}
+    if rng.random() < 0.06:
+        # base = register + constant, kept in a Python variable and extended TWICE: d is the second use
+        if not any(k in ("r", "sr") for k, _ in regs):
+            regs.append((rng.choice(["r", "sr"]), 2))
+            reginit[2] = rng.choice([1000, 7, -5, 2 ** 31, rng.randint(-100, 100)])
+        kind, no = [x for x in regs if x[0] in ("r", "sr")][0]
+        base = [rng.choice(["+", "-"]), ["r", kind, no], ["c", rng.choice([8, 1, 100, 4096])]]
+        case["expr"] = [rng.choice(["+", "-"]), base, ["c", rng.choice([2, 3, 16, 1000])]]
+        case["shared"] = [rng.choice(["+", "-"]), rng.choice([1, 5, 64])]
+        decls.insert(0, ("spare", "local", "Q"))
+        values["spare"] = 0
+        case.pop("vm", None)
+        return case
     plain = [(n, f) for n, st_, f in decls[:-1] if st_ == "local" and len(f) == 1 and f in "bhiBHIqQ"]
     if plain and rng.random() < 0.12:
         # one local variable is read through a COMPUTED address (stack pointer + register + constant) instead of the usual stack
@@ -132,6 +145,11 @@ def statements(case):
         st.append(["set", ["r", "r", case["vm"][1]], ["c", case["vm"][2]]])
     expr_ = via_memory(case, case["expr"])
     case = dict(case, expr=expr_)
+    if case.get("shared"):
+        # the left operand of the expression is an object that has been extended once before (into a spare variable)
+        op0, c0 = case["shared"]
+        st.append(["setshared", expr_[1], [[["v", "spare"], op0, ["c", c0]], [["v", case["dest"]], expr_[0], expr_[2]]]])
+        return st
     if case.get("regdest"):
         st.append(["set", ["r", case["regdest"][0], case["regdest"][1]], case["expr"]])
         if case["regdest"][1] == 0:
